@@ -582,8 +582,8 @@ fn policy_case(case: u64, rng: &mut Rng, rep: &mut Report) {
 /// the successor has committed - nothing it still does may change what is published.
 fn stale_merge_case(case: u64, rng: &mut Rng, rep: &mut Report) {
     rep.eval();
-    let dropped = rng.bool();
-    let out = tvmon::sched::stale_merge_schedule(rng, dropped);
+    let mode = rng.below(3) as u8;
+    let out = tvmon::sched::stale_merge_schedule_mode(rng, mode);
     for c in &out.counters {
         rep.count(c, 1);
     }
